@@ -268,6 +268,72 @@ def run_burst(work, tier):
     return True, gout, read_jsonl(outp)
 
 
+def boot_race(work, tier):
+    """The built binary, restarted on a large saved state with a client command sent the moment the command socket exists
+    (`remove` of an unknown service: it fails, and still takes a snapshot): the start must have restored the saved state before it
+    accepts commands, or that snapshot - of a router still empty or half restored - replaces the full state file.
+    Returns (ok, log, observation)."""
+    import c20
+    binary, blog = c20.build_binary(work)
+    if not binary:
+        return False, "kamal-proxy does not build:\n" + blog[-2000:], {}
+    n = 400 if tier == "quick" else 1500
+    be = c20.Backends(1)
+    obs = {"services_saved": n}
+    try:
+        ports = c20.free_ports(2)
+        px = c20.Proxy(binary, work.path("boot"), ["--http-port", str(ports[0]), "--https-port", str(ports[1])])
+        if not px.start():
+            return False, "kamal-proxy run does not start:\n" + px.stderr().decode("latin1")[-1500:], obs
+        env = c20.base_env(px.home, px.runtime)
+        rc, out, err = c20.run_cmd(binary, ["deploy", "svc0", "--target", "127.0.0.1:%d" % be.ports[0], "--host", "svc0.test"], env)
+        px.stop()
+        st = px.state()
+        if rc != 0 or not isinstance(st, list) or len(st) != 1:
+            return False, "could not produce a saved service (deploy exit %s): %s" % (rc, err.decode("latin1")[-500:]), obs
+        dead = "127.0.0.1:%d" % c20.closed_port()
+        saved = []
+        for i in range(n):
+            sv = json.loads(json.dumps(st[0]).replace("127.0.0.1:%d" % be.ports[0], dead))
+            sv["name"] = "svc%d" % i
+            sv["options"] = dict(sv["options"], hosts=["svc%d.test" % i])
+            saved.append(sv)
+        state_path = os.path.join(px.home, ".config", "kamal-proxy", "kamal-proxy.state")
+        with open(state_path, "w") as f:
+            json.dump(saved, f)
+        sock = os.path.join(px.runtime, "kamal-proxy.sock")
+        if os.path.exists(sock):
+            os.remove(sock)
+        so, se = open(px.stdout_path, "wb"), open(px.stderr_path, "wb")
+        p = c20._register(subprocess.Popen([binary, "run"] + px.argv, env=px.env, stdout=so, stderr=se))
+        px.p, px.so, px.se = p, so, se
+        t0 = time.time()
+        while not os.path.exists(sock) and time.time() - t0 < 60 and p.poll() is None:
+            time.sleep(0.0005)
+        obs["socket_after_s"] = round(time.time() - t0, 3)
+        early = []
+        for _ in range(3):
+            rc, out, err = c20.run_cmd(binary, ["remove", "no-such-service"], env, timeout=60)
+            early.append(rc)
+        obs["early_remove_exits"] = early
+        listed = 0
+        t1 = time.time()
+        while time.time() - t1 < 60:
+            rc, out, err = c20.run_cmd(binary, ["list"], env, timeout=60)
+            listed = max(0, len([l for l in out.decode("latin1").splitlines() if l.strip()]) - 1)
+            if listed >= n:
+                break
+            time.sleep(0.2)
+        obs["services_listed"] = listed
+        px.stop()
+        after = px.state()
+        obs["services_in_state_file_after"] = len(after) if isinstance(after, list) else None
+        return True, "", obs
+    finally:
+        be.close()
+        c20.kill_all()
+
+
 def run_fs(work, cases):
     write_jsonl(work.path("fs.jsonl"), cases)
     rc, gout = go_test(work, FILES + ["c12fs_test.go"], "^TestVerifC12FS$",
@@ -495,6 +561,7 @@ def run(tier, seed):
         harness_ok, gout, outs = m5.run_scenarios(work, scen, FILES)
         fs_ok, fs_gout, fs_outs = run_fs(work, fs_cases)
         bu_ok, bu_gout, bu_rows = run_burst(work, tier)
+        bt_ok, bt_log, bt_obs = boot_race(work, tier)
         ft_ok, ft_gout, ft_outs = run_fault(work, fault_cases)
         ft_bad = fault_check(work, ft_outs) if (ft_ok and ok) else []
         if not ft_ok:
@@ -583,6 +650,7 @@ def run(tier, seed):
                 "cases": len(fs_cases), "commands": fs_cmds, "steps_with_two_concurrent_commands": fs_par,
                 "directory_events_by_kind": fs_kinds, "monitor_failures": len(fs_mon), "stale_at_end": len(fs_stale),
                 "bursts_of_eight_commands": ([x for x in bu_rows if x.get("summary")] or [{}])[0],
+                "restart_of_the_built_binary_with_an_early_command": bt_obs,
                 "disagreements_with_hooks": len(fs_differ),
                 "sample": fs_shown[0][:40] if fs_shown else []},
         })
@@ -667,6 +735,19 @@ def run(tier, seed):
                 "round": r["round"], "state_file": r["state_file"][:3000], "configuration_in_force": r["configuration_in_force"][:3000],
                 "stale_rounds": sm["stale_rounds"], "rounds": sm["rounds"],
                 "replay": "VERIF_ROUNDS=%d go test -tags verif -overlay ... -run ^TestVerifC12Burst$ (harness/c12fs_test.go)" % sm["rounds"]})
+        elif bt_ok and bt_obs.get("services_in_state_file_after") != bt_obs.get("services_saved"):
+            res.violation("boot", {
+                "property": "C12", "seed": seed, "tier": tier,
+                "what": "the built binary was restarted on a saved state of %d services and a client command (`remove` of an unknown service) "
+                        "was sent the moment the command socket existed: afterwards the state file no longer holds the saved "
+                        "configuration - the next start would restore less than a full configuration" % bt_obs.get("services_saved", 0),
+                "observation": bt_obs,
+                "replay": "tools/c12.py boot_race: kamal-proxy run on a state file with N services; `kamal-proxy remove no-such-service` as "
+                          "soon as $XDG_RUNTIME_DIR/kamal-proxy.sock exists; stop; count the services in the state file"})
+        elif not bt_ok:
+            res.violation("broken", {"property": "C12", "seed": seed, "tier": tier,
+                                     "what": "the restart-with-an-early-command run of the built binary could not be completed",
+                                     "log": bt_log[-3000:]}, no_input=True)
         elif not bu_ok:
             res.violation("broken", {"property": "C12", "seed": seed, "tier": tier,
                                      "what": "burst harness (harness/c12fs_test.go TestVerifC12Burst) does not build/run against the tree",
